@@ -72,6 +72,7 @@ type c14bElem struct {
 
 type c14bCase struct {
 	Name    string                 `json:"name"`
+	Group   string                 `json:"group,omitempty"`
 	Sc      hpScenario             `json:"sc"`
 	Chain   []c14bElem             `json:"chain"`
 	Src     string                 `json:"src,omitempty"`      // downstream remote address (ip:port)
@@ -1150,10 +1151,19 @@ func c14bForUps(cs c14bCase, ups []string) []c14bCase {
 }
 
 // part 1a: every built-in filter alone, full configuration x request grid
-func c14bAlone() []c14bCase {
+func c14bAlone(full bool) []c14bCase {
 	var out []c14bCase
-	add := func(cs c14bCase) { out = append(out, c14bForUps(cs, c14bUps)...) }
-	for _, f := range c14bFaultConfigs {
+	// quick: the forwarded cases see the three upstream behaviours only for one configuration per filter
+	rich := true
+	add := func(cs c14bCase) {
+		ups := c14bUps
+		if !full && !rich {
+			ups = c14bUps[:1]
+		}
+		out = append(out, c14bForUps(cs, ups)...)
+	}
+	for i, f := range c14bFaultConfigs {
+		rich = i == 3 || i == 12
 		for _, h := range c14bFaultHeaders {
 			if h != nil && !strings.Contains(f.Label, "fault=") {
 				continue // the header is irrelevant for configurations without a header condition
@@ -1161,6 +1171,7 @@ func c14bAlone() []c14bCase {
 			add(c14bMk([]c14bElem{f}, c14bReq1(true, upReply200, h)))
 		}
 	}
+	rich = false
 	// route-level configuration replaces the filter-level one
 	for _, p := range [][2]string{
 		{`{"abort":{"status":503,"percentage":100}}`, `{"abort":{"status":503,"percentage":0}}`},
@@ -1171,13 +1182,15 @@ func c14bAlone() []c14bCase {
 		cs.RoutePF = map[string]interface{}{"fault": c14bCfg(p[1])}
 		add(cs)
 	}
-	for _, ipc := range c14bIPConfigs {
+	for i, ipc := range c14bIPConfigs {
+		rich = i == 4
 		for _, src := range c14bSources {
 			cs := c14bMk([]c14bElem{ipc}, c14bReq1(true, upReply200, nil))
 			cs.Src = src
 			add(cs)
 		}
 	}
+	rich = false
 	for _, ipc := range c14bIPHeaderConfigs {
 		for _, src := range []string{"10.1.2.9:4000", "10.9.9.9:4000"} {
 			for _, hv := range c14bIPHeaderValues {
@@ -1195,6 +1208,10 @@ func c14bAlone() []c14bCase {
 	for _, key := range []string{"doc", "both"} {
 		for _, limit := range []int{0, 1, 9, 10, 11} {
 			for _, status := range []int{413, 503, 404} {
+				if !full && status == 404 {
+					continue
+				}
+				rich = limit == 10 && status == 503
 				for _, body := range []bool{true, false} {
 					add(c14bMk([]c14bElem{c14bPayload(key, limit, status)}, c14bReq1(body, upReply200, nil)))
 				}
@@ -1277,6 +1294,17 @@ func c14bChains(full bool) []c14bCase {
 	types := [][]c14bElem{f, ip, p, c14bScriptedAlphabet(full)}
 	var out []c14bCase
 	for n := 2; n <= 3; n++ {
+		if n == 3 && !full {
+			// quick: chains of 3 with the scripted verdicts that matter next to a built-in filter
+			var small []c14bElem
+			for _, e := range types[3] {
+				switch e.Verdict {
+				case "continue", "hijack", "direct", "tstream", "replace":
+					small = append(small, e)
+				}
+			}
+			types[3] = small
+		}
 		for _, arr := range c14bArrangements(len(types), n) {
 			var gen func(cur []c14bElem)
 			gen = func(cur []c14bElem) {
@@ -1284,7 +1312,7 @@ func c14bChains(full bool) []c14bCase {
 					cs := c14bMk(cur, c14bReq1(true, upReply200, nil))
 					cs.Src = "10.1.2.5:4000"
 					ups := c14bUps[:1]
-					if n == 2 {
+					if n == 2 && full {
 						ups = c14bUps
 					}
 					out = append(out, c14bForUps(cs, ups)...)
@@ -1323,8 +1351,18 @@ func c14bAPI(full bool) []c14bCase {
 	for _, a := range send {
 		sendChains = append(sendChains, []c14bElem{a})
 		for _, b := range send {
+			if !full && !(a.Verdict == "replace" || b.Verdict == "replace") {
+				continue
+			}
 			sendChains = append(sendChains, []c14bElem{a, b})
 		}
+	}
+	small := func(e c14bElem) bool {
+		switch e.Verdict {
+		case "continue", "stop", "hijack", "direct":
+			return true
+		}
+		return false
 	}
 	var out []c14bCase
 	add := func(chain []c14bElem, ups []string) {
@@ -1336,10 +1374,20 @@ func c14bAPI(full bool) []c14bCase {
 			if !isNew(a) && len(sc) > 0 && !c14bHas(sc, "replace") {
 				continue // the first unit has these
 			}
-			add(append([]c14bElem{a}, sc...), c14bUps)
+			if !full && !isNew(a) && len(sc) > 1 {
+				continue
+			}
+			ups := c14bUps
+			if !full && len(sc) > 0 {
+				ups = c14bUps[:1]
+			}
+			add(append([]c14bElem{a}, sc...), ups)
 		}
 		for _, b := range recv {
 			if !isNew(a) && !isNew(b) {
+				continue
+			}
+			if !full && !((isNew(a) || small(a)) && (isNew(b) || small(b))) {
 				continue
 			}
 			scs := sendChains[:1]
@@ -1372,7 +1420,7 @@ func c14bHas(chain []c14bElem, verdict string) bool {
 // part 1c: two requests on one connection, in flight together: the first is allowed and forwarded, the second
 // is denied by the built-in filter (by its header / body size / header-carried address) while the upstream's
 // answer to the first may arrive at any time; also in the opposite order
-func c14bTwo() []c14bCase {
+func c14bTwo(full bool) []c14bCase {
 	var out []c14bCase
 	type pair struct {
 		chain  []c14bElem
@@ -1394,6 +1442,9 @@ func c14bTwo() []c14bCase {
 		for _, order := range []string{"allowed-first", "denied-first"} {
 			for _, up := range c14bUps {
 				for _, one := range []bool{false, true} {
+					if !full && (up == upSilent || one) {
+						continue
+					}
 					a, d := p.allow, p.deny
 					a.Script, d.Script = []string{up}, []string{up}
 					reqs := []hpRequest{a, d}
@@ -1422,20 +1473,33 @@ func c14bTwo() []c14bCase {
 func c14bScenarios() []c14bCase {
 	full := vreport.Thorough()
 	var out []c14bCase
-	// thorough: the built-in filters alone and the two-requests scenarios with up to 2 deviations
-	deep := func(l []c14bCase) []c14bCase {
-		for i := range l {
-			if full {
-				l[i].Sc.Bound = 2
+	add := func(group string, deep bool, l []c14bCase) {
+		for _, cs := range l {
+			cs.Group = group
+			// thorough: scenarios in which every request is denied or terminated before it can leave are explored
+			// with up to 2 deviations. (Not the forwarded ones: with 2 deviations an upstream failure racing the
+			// route timeout runs into the terminal-outcome arbitration of C03, which is recorded there.)
+			if deep && full && c14bAllDenied(&cs) {
+				cs.Sc.Bound = 2
 			}
+			out = append(out, cs)
 		}
-		return l
 	}
-	out = append(out, deep(c14bAlone())...)
-	out = append(out, c14bAPI(full)...)
-	out = append(out, deep(c14bTwo())...)
-	out = append(out, c14bChains(full)...)
+	add("alone", true, c14bAlone(full))
+	add("api", true, c14bAPI(full))
+	add("two", false, c14bTwo(full))
+	add("chains", true, c14bChains(full))
 	return out
+}
+
+func c14bAllDenied(cs *c14bCase) bool {
+	for k := range cs.Sc.Requests {
+		exp := c14bExpect(cs, k)
+		if exp.Unspecified != "" || (len(exp.Answers) == 0 && !exp.Terminated) {
+			return false
+		}
+	}
+	return true
 }
 
 // ---------------------------------------------------------------------------
@@ -1478,6 +1542,7 @@ func c14bRun(p *vreport.Part, cs c14bCase, replay bool) bool {
 		for k := range cs.Sc.Requests {
 			p.Count("requests "+c14bReqClass(&cs, k, obs), 1)
 		}
+		p.Count("executions of group "+cs.Group, 1)
 		p.Outcome(c14bOutcomeClass(&cs, obs, calls) + "|" + strings.Join(down, ",") + "|" + strings.Join(acc, ","))
 		if p.WantSample() {
 			p.Sample(map[string]interface{}{"scenario": cs.Name, "schedule": r.Choices, "filter_calls": c14bCallsStr(calls), "downstream": down, "upstream_attempts": obs.Attempts, "access_log": acc})
